@@ -21,14 +21,15 @@ class C18(core.Property):
     lean_files = ["HappyModel/C18/*.lean", "HappyProofs/C18/*.lean", "HappyModel/Proto.lean", "Driver/C18.lean"]
     theorems = []  # filled from THEOREMS below
     variants = ["repaired", "current"]   # store family: adoption of a peer's key (fixes/C18-store-adopts-remote-node-id)
-    quick_cases = 6000
+    quick_cases = 4500
     thorough_cases = 100000
     pool_workers = 1     # a case takes a few ms; the fork pool costs more than it saves (93 s vs 20 s under load)
     rule = ("family clocks: history of ≤40 loc/send/recv events among 2–5 nodes with per-node physical readings "
             "(skewed, drifting, jumping backwards), every node's VectorClock constructed with the full, a partial, an empty or "
             "a self-only membership list; family store: 2–4 CRDTStore replicas of one CRDT type (G/PN counter, OR-set, LWW "
             "register), 1–3 keys, full / partial / ring peer lists, ≤40 client writes, gossip ticks and deliveries of pushed and "
-            "answered states in any order with duplication and loss, optionally the same writes mirrored on several stores "
+            "answered states in any order with duplication and loss, optionally a final phase of lossless gossip rounds (the network "
+            "has healed: tick, push delivered, answer delivered; nobody writes), optionally the same writes mirrored on several stores "
             "(equal values, different state); non-trivial when a message is delivered after a write; family crdt: ≤40 inc/dec/lset/oadd/orem/merge/roundtrip operations over 2–4 replicas, "
             "≤3 elements; a case is non-trivial when it contains at least one receive (clocks) or one merge after an update (crdt); "
             "distinct = distinct case content")
@@ -63,6 +64,10 @@ class C18(core.Property):
         "reaches every member during the exchange (`reach`), no updates during the exchange",
         "store_deliver_is_keywise_merge: the message lists each key once and its destination is a store (true of every message "
         "the protocol layer builds; stated as hypotheses, with a decided example)",
+        "store_gossip_phase_converges: the script ends in a phase without client writes (ticks, deliveries, lossless rounds); the "
+        "judge's liveness clause store/gossip/no-convergence-after-heal-and-rounds uses the flows a lossless round owes by the "
+        "script and the peer lists (push to the chosen peer, answer when the peer lists the sender), the theorem the merges the "
+        "model performs through its messages (`gossipPairs`); that both have the same reach is tested, not proved",
         "the judge-accepts-model link for the store judge (judgeStore on the model's own transcript returns none) is tested, not proved",
     ]
 
@@ -223,6 +228,15 @@ class C18(core.Property):
                 src, dst, push = msgs[m]
                 if push and src in peers[dst]:
                     msgs.append((dst, src, False))
+        # the network heals: lossless gossip rounds (tick, the push is delivered, so is the answer), nobody writes;
+        # whatever was lost before stays lost
+        if rng.random() < 0.5:
+            for _ in range(rng.choice([1, 2, 2, 3, n])):
+                order = list(range(n))
+                if rng.random() < 0.5:
+                    rng.shuffle(order)
+                for sid in order:
+                    steps.append(["round", sid, rng.randrange(max(1, len(peers[sid])))])
         return {"family": "store", "kind": kind, "n": n, "nkeys": nkeys, "peers": peers, "steps": steps}
 
     # ------------------------------------------------------------------ implementation
@@ -379,9 +393,20 @@ class C18(core.Property):
             def handle_event(self, event):
                 i, phase = event.context["metadata"]["i"], event.context["metadata"]["phase"]
                 st = steps[i]
-                if phase == 1:
-                    return prop.store_observe(out, i, st, stores, pool, seen, ids, kind)
-                seen[0] = len(pool)
+                if phase == 3:
+                    return prop.store_observe(out, i, st, stores, pool, seen, ids, kind, peers)
+                if phase in (1, 2):
+                    # a lossless round: what the previous phase handed to the network is delivered now
+                    if st[0] != "round":
+                        return None
+                    evs = []
+                    for m in range(dseen[0], len(pool)):
+                        md = dict(pool[m].context["metadata"])
+                        evs.append(Event(time=self.now, event_type=pool[m].event_type,
+                                         target=stores[int(md["destination"])], context={"metadata": md}))
+                    dseen[0] = len(pool)
+                    return evs
+                seen[0] = dseen[0] = len(pool)
                 if st[0] == "w":
                     _, sid, key, op, val = st
                     v = val if op in ("inc", "dec") else str(val)
@@ -391,7 +416,7 @@ class C18(core.Property):
                     _, sid, key, v, p, l, nd = st
                     stores[sid].get_or_create(f"k{key}").set(None if v == 0 else v, HLCTimestamp(p, l, str(nd)))
                     return None
-                if st[0] == "tick":
+                if st[0] in ("tick", "round"):
                     _, sid, j = st
                     if peers[sid]:
                         _random.seed(prop.choice_seed(len(peers[sid]), j % len(peers[sid])))
@@ -406,21 +431,23 @@ class C18(core.Property):
                     return Event(time=self.now, event_type=orig.event_type, target=dst, context={"metadata": md})
                 return None
 
-        seen = [0]
+        seen, dseen = [0], [0]
         drv = Drv("drv")
         sim = Simulation(start_time=Instant.Epoch, end_time=Instant.from_seconds(len(steps) + 5.0), sources=[],
                          entities=[*stores, net, drv])
         for i in range(len(steps)):
-            for phase in (0, 1):
-                sim.schedule(Event(time=Instant.from_seconds(1.0 + i + 0.5 * phase), event_type="Step", target=drv,
+            for phase in (0, 1, 2, 3):
+                sim.schedule(Event(time=Instant.from_seconds(1.0 + i + 0.2 * phase), event_type="Step", target=drv,
                                    context={"metadata": {"i": i, "phase": phase}}))
         _random.seed(0)
         sim.run()
+        for a in range(n):
+            prop.store_lines(out, "f", a, stores, ids, kind)      # the public state of every store at the end
         return out
 
     @staticmethod
-    def store_observe(out, i, st, stores, pool, seen, ids, kind):
-        """transcript after step i: messages created by the step, then the public state of the acting store"""
+    def store_observe(out, i, st, stores, pool, seen, ids, kind, peers):
+        """transcript after step i: messages created by the step, then the public state of the store(s) that acted"""
         if st[0] == "dl":
             acting = int(pool[st[1]].context["metadata"]["destination"]) if st[1] < seen[0] else None
         else:
@@ -432,12 +459,23 @@ class C18(core.Property):
             out.append(f"m {m} {'push' if pool[m].event_type == 'GossipPush' else 'resp'} {md['source']} {md['destination']} {keys}".rstrip())
         if acting is None:
             return None
+        actors = [acting]
+        if st[0] == "round" and peers[acting]:
+            d = peers[acting][st[2] % len(peers[acting])]
+            if d != acting:
+                actors.append(d)
+        for a in actors:
+            C18.store_lines(out, "s", a, stores, ids, kind)
+        return None
+
+    @staticmethod
+    def store_lines(out, tag, acting, stores, ids, kind):
         crdts = stores[acting].crdts
         j = lambda xs: " ".join(str(x) for x in xs)
         for key in sorted(crdts, key=lambda k: int(k[1:])):
             c = crdts[key]
             d = c.to_dict()
-            head = f"s {acting} {key[1:]} nid {d['node_id']}"
+            head = f"{tag} {acting} {key[1:]} nid {d['node_id']}"
             if kind == "g":
                 out.append(f"{head} v {c.value} P {j(d['counts'].get(x, 0) for x in ids)} X {j(sorted(set(d['counts']) - set(ids)))}".rstrip())
             elif kind == "pn":
@@ -451,7 +489,6 @@ class C18(core.Property):
                 live = sorted(int(e) * 10**9 + int(t[0]) * 10**6 + t[1] for e, tags in d["entries"].items() for t in tags)
                 dead = sorted(int(t[0]) * 10**6 + t[1] for t in d.get("tombstones", []))
                 out.append(f"{head} q {d['seq']} E {j(elems)} T {j(live)} D {j(dead)}")
-        return None
 
     @staticmethod
     def rep_line(r, pn, lw, os_, ids):
@@ -524,33 +561,39 @@ class C18(core.Property):
     def judge_store_block(self, case, impl_out):
         """script + what the implementation was seen to do: the messages it handed to the network and the values the
         acting store reports after each step (counter value / register timestamp+value / set elements only)"""
-        _, steps = self.store_body(case)
+        peers, steps = self.store_body(case)
         per = {}
+        fin = []
         cur = None
+
+        def obs(tag, t):
+            if t[5] == "v":
+                return f"{tag} {t[1]} {t[2]} v {t[6]}"
+            if t[5] == "lww":
+                return f"{tag} {t[1]} {t[2]} lww " + " ".join(t[6:])
+            e = t.index("E")
+            return (f"{tag} {t[1]} {t[2]} E " + " ".join(t[e + 1:t.index("T", e)])).rstrip()
+
         for line in impl_out:
             t = line.split()
             if t[0] == "t":
                 cur = int(t[1])
                 per[cur] = []
+            elif t[0] == "f":
+                fin.append(obs("fin", t))
             elif cur is None:
                 return None
             elif t[0] == "m":
                 per[cur].append(line)
             elif t[0] == "s":
-                if t[5] == "v":
-                    per[cur].append(f"obs {t[1]} {t[2]} v {t[6]}")
-                elif t[5] == "lww":
-                    per[cur].append(f"obs {t[1]} {t[2]} lww " + " ".join(t[6:]))
-                else:
-                    e = t.index("E")
-                    per[cur].append(f"obs {t[1]} {t[2]} E " + " ".join(t[e + 1:t.index("T", e)]))
+                per[cur].append(obs("obs", t))
         if sorted(per) != list(range(len(steps))):
             return None
-        body = []
+        body = list(peers)
         for i, st in enumerate(steps):
             body.append(st)
             body.extend(x.rstrip() for x in per[i])
-        return (f"judge-store {case['kind']} {case['n']} {case['nkeys']}", body)
+        return (f"judge-store {case['kind']} {case['n']} {case['nkeys']}", body + fin)
 
     def nontrivial_key(self, case, impl_out):
         if case["family"] == "store":
@@ -559,7 +602,7 @@ class C18(core.Property):
             for st in case["steps"]:
                 if st[0] in ("w", "lset"):
                     wrote = True
-                elif st[0] == "dl" and wrote and any(l.startswith("m ") for l in impl_out):
+                elif st[0] in ("dl", "round") and wrote and any(l.startswith("m ") for l in impl_out):
                     return ("store", json.dumps(case, sort_keys=True))
             return None
         if case["family"] == "clocks":
@@ -652,6 +695,7 @@ THEOREMS = [
     "HappyModel.C18.exchange_same_knowledge",
     "HappyModel.C18.exchange_all_converges",
     "HappyModel.C18.store_exchange_converges",
+    "HappyModel.C18.store_gossip_phase_converges",
 ]
 C18.theorems = THEOREMS
 PROPERTY = C18()
